@@ -29,6 +29,12 @@ CLAIMED["C04"] = dict(
    text="escape(): every string up to length 6 (quick) / 7 (thorough) over the alphabet the property names is enumerated (that part is exhaustive) and longer strings over a wider alphabet are generated; styling: generated documents of open/close/close-any/text events are interpreted by an independent stack model (precedence by opening order, normalised closing names, MarkupError exactly when nothing matches) and compared per character with the rendered Text.",
    note="emoji=False for the escape round trip; embedded form under the statement's side condition; tag set fixed to 15 tags covering aliases, word order, negation, link=, hex colours and a non-style name.",
    ref="5 C04")
+CLAIMED["C05"] = dict(
+   technique="model-based Hypothesis testing: generated histories of 26 Text operations replayed against a list-of-(character, ordered styles) reference model after every step",
+   level="exploration",
+   text="Every generated history (<=12 operations over a pool of Text values built four different ways, raw integer offsets inside/at/beyond the ends and negative) is executed on the real Text and on an ordinary-list model; plain text, len() and per-character effective style are compared after each operation, and style-only operations must leave the characters unchanged.",
+   note="Constructor spans inside the text; inserted padding / tab fill / ellipsis characters have unconstrained style; join separators carry no base style; divide offsets sorted within the text.",
+   ref="5 C05")
 NOT_YET = {}
 props = [json.loads(l) for l in open(os.path.join(V, "properties.jsonl"))]
 checks = []
